@@ -24,7 +24,7 @@ func init() {
 			"quantity evaluated on the value subtracted from (an overdrawn NFT entry is deleted, not stored negative, so the excess would be created). R8: tokens are delivered once — for every pair of a local credit of a non-sender account and a message " +
 			"that carries tokens on under the function's own name, the guards of the one contradict the guards of the other (destination account present / same shard vs absent / other shard) or no control-flow path joins them. Does NOT decide: the sums, delivery/refund histories, undelivered messages.",
 		Trusted: []string{"math/big semantics", "A-deps", "A-protomsg"},
-		Rules:   []func(*Ctx){c01r1, c01r2, c01r3, c01r4, c01r5, c01r6, c01r7, c01r8},
+		Rules:   []func(*Ctx){c01r1, c01r2, c01r3, c01r4, c01r5, c01r6, c01r7, c01r8, c01r9},
 	})
 }
 
@@ -1326,4 +1326,14 @@ func shipsUnder(p *Prog, sub *Env, assume []Fact) bool {
 		}
 	}
 	return true
+}
+
+// c01r9: what the sender side has debited and shipped is credited only if the destination side accepts the message: the
+// continuing side of the three transfer functions has no error exit that is decided by the bytes of a forwarded argument
+// (shared with C10-R5). A "well-formedness" test that only the destination side makes strands the tokens: debited, refused,
+// and — the refund runs through the same code — refused again.
+func c01r9(c *Ctx) {
+	c.shareRule(c10r5, "C10-R5", "C01-R9", "the destination side refuses nothing the sender side ships (no destination-only rejection by argument content)", func(o Oblig) bool {
+		return !strings.HasPrefix(o.Construct, "SetUserName") || o.Kind == "anchor"
+	})
 }
